@@ -200,6 +200,10 @@ package connectconformance
 //@   ensures !held[r.mu]
 //@   ensures @recorded has(r.outcomes, testCase) && !r.outcomes[testCase].setupError
 //@   ensures @kept forall k string :: old(r.outcomes != nil && has(r.outcomes, k)) ==> has(r.outcomes, k)
+//@   //# the merged-metadata leniency: the merged expectation is compared once with everything the client reported as headers
+//@   //# and once with everything it reported as trailers; only if both comparisons fail are the original discrepancies kept
+//@   assert_at "if len(allHeadersErrs) != 0 && len(allTrailersErrs) != 0 {": (len(allHeadersErrs) == 0) == hdrsOK(merged, actual.ResponseHeaders, len(merged)) &&
+//@        (len(allTrailersErrs) == 0) == hdrsOK(merged, actual.ResponseTrailers, len(merged))
 //@   ensures @pass-needs r.outcomes[testCase].actualFailure == nil ==> old(
 //@        len(actual.Payloads) == len(definition.ExpectedResponse.Payloads) && paysOK(definition.ExpectedResponse.Payloads, actual.Payloads, len(actual.Payloads)) &&
 //@        ((definition.ExpectedResponse.Error == nil) == (actual.Error == nil)) &&
